@@ -6,38 +6,43 @@
      forall i snap tr, c11_scope i = true -> model_run i = Some (true, snap, tr) ->
                        oracle i true snap tr = true
 
-   It is FALSE of the faithful model on five input classes (open findings C11-F1..F5, see the
-   _refuted theorems).  What is proved for ALL inputs:
+   It is FALSE of the faithful model on one input class (open finding C11-F5 = C10-F3, see the
+   _refuted theorem; the class C10-F1 of the shared oracle is also excluded).  The former findings
+   C11-F1..F4 are repaired in the source: their witnesses are kept as `_now_accepted` theorems.
+   What is proved for ALL inputs:
      - shape stability: in every state that any history (events with any keys / any number of
        values, edits, saves, reads) reaches from ANY bootstrapped table, an option whose declared
        type is a list type holds a TRACKED list                      (C11_shape_stable)
-       [port lists announced by <X>PortLines rows get the parser String(), which is not a list
-        type: that is finding C11-F2, not covered by this theorem]
+       [port lists get the parser String(), which is not a list type; for them the same follows,
+        inside the envelope, from C11_oracle_holds_partial]
      - tracked means what the property needs: an in-place operation on the list a read returns
        makes the option pending AS that list, so that (C10_setconf_exact) the next save emits
        exactly its elements, in order                                (C11_edit_after_read_is_saved)
      - events write nothing on the control connection                (C11_event_silent)
-     - THE FIRST CLAUSE of the property, for every table / store / defaults of the envelope
-       outside the two bootstrap finding classes (F1 irregular port lists, F4 comma default):
+     - THE FIRST CLAUSE of the property, for EVERY table / store / defaults of the envelope:
        the model of bootstrap/_do_setup/_get_defaults succeeds, and reading every option Tor
        lists right after attaching gives Tor's value parsed by the declared type -- the default
-       when unset, names resolved case-insensitively (the Spec's boot_oracle accepts the
-       model's snapshot)                                         (C11_bootstrap_view_partial)
+       when unset (a comma-list default split into its elements), port lists as the list of
+       their lines whether Tor holds none, one or many (unset or "auto": the default lines, from
+       config/defaults or __<X>), names resolved case-insensitively (the Spec's boot_oracle
+       accepts the model's snapshot)                                 (C11_bootstrap_view)
      - and the state it leaves is synchronised with Tor's store in the sense of the simulation
        relation, so that local edits and saves after attaching satisfy the whole C10 oracle
-                                                                 (C11_bootstrap_synced_partial)
-     - THE FULL STATEMENT outside the finding classes, from the input alone: attach, then ANY
+                                                                     (C11_bootstrap_synced)
+     - THE FULL STATEMENT outside the open class, from the input alone: attach, then ANY
        history of CONF_CHANGED events (0 / 1 / many values per option, any interleaving of
-       lines), local assignments, in-place edits, saves (accepted or rejected), reads and
-       needs_save() -- the Spec oracle accepts the model's attach-time snapshot and whole trace:
-       after every event each option without a pending local change reads as the NEW value
-       parsed by its declared type (list options as tracked lists; unset -> default), and
-       read-edit-save afterwards sends exactly the edited list   (C11_oracle_holds_partial)
-       [what keeps it `_partial`: c11_known i = false (exact complement of the finding classes)
-        and `no socks_endpoint() operation in the history` -- socks_endpoint() is decided by the
-        oracle on the correspondence run only]
-       Key lemma: parse_keywords(arg, multiline_values=False) groups an event's lines by key
-       exactly when the event is outside class F3 (Proofs/CfgEvent.event_dict). *)
+       lines, port lists included), local assignments, in-place edits, saves (accepted or
+       rejected), reads and needs_save() -- the Spec oracle accepts the model's attach-time
+       snapshot and whole trace: after every event each option without a pending local change
+       reads as the NEW value parsed by its declared type (list options and port lists as
+       tracked lists; unset -> default), and read-edit-save afterwards sends exactly the edited
+       list                                                      (C11_oracle_holds_partial)
+       [what keeps it `_partial`: c11_known i = false (exact complement of the open classes
+        C10-F1 emptied_list_saved and C11-F5 = C10-F3 edit_while_detached) and `no
+        socks_endpoint() operation in the history` -- socks_endpoint() is decided by the oracle
+        on the correspondence run only]
+       Key lemma: parse_keywords(arg, multiline_values=False) groups the lines of EVERY event of
+       the envelope by key (Proofs/CfgEvent.event_dict). *)
 From Coq Require Import String.
 From Coq Require Import List Bool Ascii Arith NArith ZArith.
 From TxVerif Require Import Lib.Bytes Lib.CfgLib Spec.CfgTypes Spec.TorStore Spec.CfgOracle Spec.C10 Spec.C11
@@ -69,19 +74,19 @@ Theorem C11_event_silent : forall names st items st' ob,
 Proof. exact event_silent. Qed.
 Print Assumptions C11_event_silent.
 
-Theorem C11_bootstrap_view_partial : forall i,
-  c11_scope i = true -> benign_boot i = true ->
+Theorem C11_bootstrap_view : forall i,
+  c11_scope i = true ->
   exists st0 snap, m_bootstrap i = Ok st0 /\ m_snapshot st0 (option_names i) = Some (st0, snap) /\
                    boot_oracle i true snap = true.
 Proof. exact bootstrap_view. Qed.
-Print Assumptions C11_bootstrap_view_partial.
+Print Assumptions C11_bootstrap_view.
 
-Theorem C11_bootstrap_synced_partial : forall i,
+Theorem C11_bootstrap_synced : forall i,
   table_ok (i_table i) = true -> store_ok (i_table i) (i_store i) = true ->
-  defaults_ok (options (i_table i)) (i_defaults i) = true -> benign_boot i = true ->
+  defaults_ok (options (i_table i)) (i_defaults i) = true ->
   exists st0, m_bootstrap i = Ok st0 /\ Rel (options (i_table i)) (i_defaults i) st0 (mon0 i).
 Proof. exact bootstrap_synced. Qed.
-Print Assumptions C11_bootstrap_synced_partial.
+Print Assumptions C11_bootstrap_synced.
 
 Theorem C11_oracle_holds_partial : forall i b snap tr,
   c11_scope i = true -> c11_known i = false -> forallb c11_op (i_ops i) = true ->
@@ -90,31 +95,49 @@ Theorem C11_oracle_holds_partial : forall i b snap tr,
 Proof. exact c11_oracle_holds. Qed.
 Print Assumptions C11_oracle_holds_partial.
 
-(* ---- the open findings: the full statement fails on a concrete input of each class ---- *)
-Theorem C11_portlist_bootstrap_refuted :
-  exists i, portlist_bootstrap_irregular i = true /\ c11_scope i = true /\
-            exists snap tr, model_run i = Some (true, snap, tr) /\ oracle i true snap tr = false.
-Proof. exists w11_f1. destruct f11_1_refuted as [[H1 H2] H3]. auto. Qed.
-Print Assumptions C11_portlist_bootstrap_refuted.
+(* ---- the repaired findings F1-F4: the witnesses that refuted the full statement are accepted,
+        lie in no open class, and show the repaired observation ---- *)
+Theorem C11_portlist_bootstrap_now_accepted :
+  c11_scope w11_f1 = true /\ c11_known w11_f1 = false /\
+  exists snap tr, model_run w11_f1 = Some (true, snap, tr) /\ oracle w11_f1 true snap tr = true
+                  /\ option_map o_res (nth_error tr 0) = Some (XVal (RList true [bs "9050"])).
+Proof. exact f11_1_now_accepted. Qed.
+Print Assumptions C11_portlist_bootstrap_now_accepted.
 
-Theorem C11_portlist_conf_changed_refuted :
-  exists i, portlist_conf_changed i = true /\ c11_scope i = true /\
-            exists snap tr, model_run i = Some (true, snap, tr) /\ oracle i true snap tr = false.
-Proof. exists w11_f2. destruct f11_2_refuted as [[H1 H2] H3]. auto. Qed.
-Print Assumptions C11_portlist_conf_changed_refuted.
+Theorem C11_portlist_conf_changed_now_accepted :
+  c11_scope w11_f2 = true /\ c11_known w11_f2 = false /\
+  exists snap tr, model_run w11_f2 = Some (true, snap, tr) /\ oracle w11_f2 true snap tr = true
+                  /\ option_map o_res (nth_error tr 1) = Some (XSocks (SockTcp (bs "127.0.0.1") 8888)).
+Proof. exact f11_2_now_accepted. Qed.
+Print Assumptions C11_portlist_conf_changed_now_accepted.
 
-Theorem C11_multi_then_keyword_refuted :
-  exists i, conf_changed_multi_then_keyword i = true /\ c11_scope i = true /\
-            exists snap tr, model_run i = Some (true, snap, tr) /\ oracle i true snap tr = false.
-Proof. exists w11_f3. destruct f11_3_refuted as [[H1 H2] H3]. auto. Qed.
-Print Assumptions C11_multi_then_keyword_refuted.
+Theorem C11_multi_then_keyword_now_accepted :
+  c11_scope w11_f3 = true /\ c11_known w11_f3 = false /\
+  exists snap tr, model_run w11_f3 = Some (true, snap, tr) /\ oracle w11_f3 true snap tr = true
+                  /\ option_map o_res (nth_error tr 0) =
+                     Some (XEvent false [RGot (RList true [bs "9050"]);
+                                         RGot (RList true [bs "info file /tmp/x"; bs "err stderr"]);
+                                         RGot (RList true []); RGot (RAtom (AStr (bs "DEFAULT"))); RGot (RAtom (AInt 2))]).
+Proof. exact f11_3_now_accepted. Qed.
+Print Assumptions C11_multi_then_keyword_now_accepted.
 
-Theorem C11_comma_default_refuted :
-  exists i, comma_default_unsplit i = true /\ c11_scope i = true /\
-            exists snap tr, model_run i = Some (true, snap, tr) /\ oracle i true snap tr = false.
-Proof. exists w11_f4. destruct f11_4_refuted as [[H1 H2] H3]. auto. Qed.
-Print Assumptions C11_comma_default_refuted.
+Theorem C11_comma_default_now_accepted :
+  c11_scope w11_f4 = true /\ c11_known w11_f4 = false /\
+  exists snap tr, model_run w11_f4 = Some (true, snap, tr) /\ oracle w11_f4 true snap tr = true
+                  /\ option_map o_res (nth_error tr 0) = Some (XVal (RList true [bs "x"; bs "y"])).
+Proof. exact f11_4_now_accepted. Qed.
+Print Assumptions C11_comma_default_now_accepted.
 
+(* the oracle's two readings of a port list that names no listener at attach time: "auto" reads
+   as the default lines when attaching and as ["auto"] after an event says so *)
+Theorem C11_portlist_auto_accepted :
+  accepted11 w11_auto 0 (XVal (RList true [bs "9050"; bs "9150 IsolateDestAddr"])) /\
+  accepted11 w11_auto 2 (XVal (RList true [bs "auto"])) /\
+  accepted11 w11_auto 6 (XSocks (SockTcp (bs "127.0.0.1") 9050)).
+Proof. exact f11_auto_accepted. Qed.
+Print Assumptions C11_portlist_auto_accepted.
+
+(* ---- the open finding: the full statement fails on a concrete input of the class ---- *)
 Theorem C11_edit_while_detached_refuted :
   exists i, edit_while_detached i = true /\ c11_scope i = true /\
             exists snap tr, model_run i = Some (true, snap, tr) /\ oracle i true snap tr = false.
